@@ -302,7 +302,7 @@ def unknown_pool(ck, ctx):
     b = ck.need("fn work::BuildStates::enqueue", F.body("work::BuildStates::enqueue"))
     cfg = ctx.cfg(b)
     tries = C.try_err_edges(ctx, b)
-    pushes = [(bb, t) for bb, t in b.calls() if callee_of(t).endswith("VecDeque::push_back")]
+    pushes = [(bb, t) for bb, t in b.calls() if callee_of(t).endswith(("VecDeque::push_back", "VecDeque::push_front"))]
     ck.floor("push_back in enqueue", len(pushes), 1)
     gates = set()
     for bb, (cont, brk, ope) in tries.items():
